@@ -334,6 +334,14 @@ def build_cases(rng, tier):
                       # (-CF reads yy_transition past its end on some bytes, in-code and loaded alike: that is C13's finding, not a loader defect)
                       'asan': i % 3 == 0 and not any('F' in o for o in REPRS[i % len(REPRS)]), 'tier': tier,
                       'text': '', 'backend': 'nr'})
+    # tables whose entries need 32 bits in the file (offsets in yy_base / yy_def beyond 32767): wide rows that do not compress
+    from props import c02
+    for i in range(1 if tier == "quick" else 6):
+        r = rng.fork("wide32_%d" % i)
+        prog = c02.wide_program(r)
+        cases.append({'id': "w%d" % i, 'kind': 'rt', 'prog': prog, 'seed': r.s, 'flex_opts': [["-C"], ["-Cm"], ["-Ca"]][i % 3] + ["-8"], 'extra_options': [],
+                      'inputs': rulesets.gen_inputs(prog, r.fork("in"), count=2, maxlen=120), 'asan': i % 2 == 0, 'tier': tier,
+                      'text': '', 'backend': 'nr'})
     for i in range(6 if tier == "quick" else 40):
         r = rng.fork("cat%d" % i)
         progs = [rulesets.gen_program(r.fork("p%d" % k), max_scs=0, csize=256) for k in range(2 + i % 2)]
